@@ -2026,6 +2026,7 @@ def gen_stash_become(seed, mode="loop"):
         sc.cb(T, "evt", n, hops() if r.random() < 0.7 else [])
     sc.cb(T, "evt", "*", [])
     steps = []
+    faulty = r.random() < 0.3       # scenarios with injected allocation failures
     for k in range(r.randrange(6, 30)):
         ops = []
         for _ in range(r.randrange(0, 4)):
@@ -2037,8 +2038,12 @@ def gen_stash_become(seed, mode="loop"):
             elif x < 0.58:
                 ops.append(("fd_write", 1))
             elif x < 0.7:
+                if faulty and r.random() < 0.4:
+                    ops.append(("fault", 1))        # the first allocation of the call fails: refused, nothing changes
                 ops.append(("unstash", T, r.choice(nmax + [0])))
             elif x < 0.8:
+                if faulty and r.random() < 0.3:
+                    ops.append(("fault", 1))
                 ops.append(("become", T, r.randrange(4)))
             elif x < 0.87:
                 ops.append(("unbecome", T))
